@@ -9,7 +9,12 @@
 //! collection with `add_live::<RStub<e>>` for a list of labels, initialises it and sends one
 //! request through `execution_txs.find(&ExchangeIndex(x))` (see `through_builder`).
 use barter::{
-    engine::execution_tx::ExecutionTxMap,
+    engine::{
+        Engine,
+        action::send_requests::SendRequests,
+        clock::LiveClock,
+        error::{EngineError, UnrecoverableEngineError},
+    },
     error::BarterError,
     execution::{
         AccountStreamEvent, Execution, builder::ExecutionBuilder, manager::ExecutionManager,
@@ -681,15 +686,20 @@ impl<const N: usize> ExecutionClient for RStub<N> {
 /// One request end to end: the real `ExecutionBuilder` over `ii` with `add_live::<RStub<e>>` for
 /// every label of `adds` (in this order), `build()`, `init()` on a paused current-thread runtime
 /// (every `ExecutionManager::run` and account-stream forwarder is a task of it), then
-/// `execution_txs.find(&ExchangeIndex(x))` and `send`, exactly as `Engine::send_request` does.
+/// the real `Engine::send_request` of an engine that owns the builder's transmitter table.
 /// Observed: the slots of the transmitter table, whether the lookup succeeded, every call any
 /// client received (tagged with the receiving client), which managers panicked, and the key of
 /// every order response that came back on the merged account channel.
+/// The order request of a `route` op as the engine holds it (before `ExecutionRequest::from`).
+enum RouteRequest {
+    Open(OrderRequestOpen),
+    Cancel(OrderRequestCancel),
+}
+
 fn through_builder(
     ii: &IndexedInstruments,
     adds: &[usize],
-    x: usize,
-    request: ExecutionRequest,
+    request: RouteRequest,
     lines: &mut Vec<String>,
 ) {
     let log = Arc::new(Mutex::new(Vec::new()));
@@ -744,13 +754,20 @@ fn through_builder(
                 .into_iter()
                 .map(|(id, tx)| format!("{}:{}", label(*id), tx.is_some() as u8)),
         );
-        let found = match execution_txs.find(&ExchangeIndex(x)) {
-            Ok(tx) => {
-                tx.send(request).expect("manager dropped its receiver before the request");
-                true
-            }
-            Err(_) => false,
+        // the REAL `Engine::send_request` (engine/action/send_requests.rs) over the transmitter table
+        // the builder made: clock, state, strategy and risk manager play no part in it
+        let txmap_line = txmap.join(" ");
+        let engine = Engine::new(LiveClock, (), execution_txs, (), ());
+        let sent = match &request {
+            RouteRequest::Open(r) => engine.send_request(r),
+            RouteRequest::Cancel(r) => engine.send_request(r),
         };
+        let found = match sent {
+            Ok(()) => true,
+            Err(EngineError::Unrecoverable(UnrecoverableEngineError::IndexError(_))) => false,
+            Err(other) => panic!("manager dropped its receiver before the request: {other:?}"),
+        };
+        let txmap = vec![txmap_line];
         // paused clock: returns once every task is idle (request handled, answer forwarded)
         tokio::time::sleep(std::time::Duration::from_secs(3)).await;
         let mut panicked = vec![];
@@ -829,11 +846,11 @@ fn route_op(ii: &IndexedInstruments, op: &[String], lines: &mut Vec<String>) {
     let (kind, x, i, cid, p) = (c.next(), c.count(), c.count(), c.num(), c.num());
     c.done();
     let request = match kind {
-        "open" => ExecutionRequest::Open(request_open(x, i, cid, p)),
-        "cancel" => ExecutionRequest::Cancel(request_cancel(x, i, cid, p)),
+        "open" => RouteRequest::Open(request_open(x, i, cid, p)),
+        "cancel" => RouteRequest::Cancel(request_cancel(x, i, cid, p)),
         o => panic!("bad kind {o}"),
     };
-    through_builder(ii, &adds, x, request, lines);
+    through_builder(ii, &adds, request, lines);
 }
 
 // ------------------------------------------------------------------------------------ run
